@@ -3,6 +3,7 @@ import numpy as np
 from lib import common as C, het as H
 
 GEN = ['HetFacts']
+IMPORTS = ['C08/kernel_weights', 'C08/lottery_1d_laws', 'C08/lottery_2d_laws', 'C08/markov_laws', 'C08/combined_shock_product_rule', 'C17/robust_bracket', 'C17/coord_reproduces_query', 'C17/monotone_equals_robust']
 TRUSTED = ['the economics of the backward functions (only their pointwise budget identity is validated, on every run)', 'C08 (mean-preserving lotteries), C09 (recursions)']
 ASSUMPTIONS = ['the aggregation theorem is proved over Z (a linear identity; valid in every commutative ring); the pointwise budget identity of hh_sim, hh_labor, '
                'hh_twoasset and the aggregate identities along steady states, nonlinear paths and Jacobian columns are checked on the implementation']
@@ -85,30 +86,32 @@ def check(rng, deep):
         # nonlinear impulse: identity at every date, with assets carried in by that date's beginning-of-period distribution
         sh = {rname: 0.003 * nr.normal(size=T), inputs[1]: 0.01 * 0.6 ** np.arange(T)}
         internals = list(blk.policy) + ['D', 'Dbeg'] + [o for o in ('c', 'n', 'chi') if o in blk.non_backward_outputs or (blk.hetoutputs is not None and o in blk.hetoutputs.outputs)]
-        imp = blk.impulse_nonlinear(ss, sh, internals={blk.name: list(dict.fromkeys(internals))})
-        dated, Dp, Dbp = H.reference_nonlinear(blk, ss, sh, T)
-        n += 1
-        prevA = {'a': ss['A'], 'b': ss.toplevel.get('B')}
-        for t in range(T):
-            dt = dated[t]
-            Dt = imp.internals[blk.name]['D'][t] + d['D']
-            Dbt = imp.internals[blk.name]['Dbeg'][t] + d['Dbeg']
-            car = {'a': np.vdot(Dbt, np.broadcast_to(dt['a_grid'] if name != 'twoasset' else dt['a_grid'][None, None, :], Dbt.shape))}
-            if name == 'twoasset':
-                car['b'] = np.vdot(Dbt, np.broadcast_to(dt['b_grid'][None, :, None], Dbt.shape))
-            v = {k: ss[k] + imp[k][t] for k in imp.toplevel if k in ss.toplevel and np.isscalar(ss[k])}
-            for k in (rname, 'ra', 'rb', 'r'):
-                if k in calib:
-                    v[k] = calib[k] + (sh[k][t] if k in sh else 0.0)
-            v['Y_inc'] = income(name, dt, Dt)
-            res = agg_residual(name, v, car)
-            if abs(res) > 1e-8:
-                C.push(out, dict(what='aggregate budget identity fails along a nonlinear impulse', input=dict(inp, date=t), observed=float(res), signature=dict(op='path', block=name)))
-                break
-            if abs(car['a'] - prevA['a']) > 1e-7:
-                C.push(out, dict(what='assets carried into date t differ from aggregate assets chosen at date t-1', input=dict(inp, date=t), observed=float(car['a'] - prevA['a']), signature=dict(op='path-carried', block=name)))
-                break
-            prevA = {'a': v['A'], 'b': v.get('B')}
+        for mono in ((False, True) if name != 'twoasset' else (False,)):       # monotonic=True: the sweep-based lottery for policies increasing in assets
+            inp = dict(inp, monotonic=mono)
+            imp = blk.impulse_nonlinear(ss, sh, internals={blk.name: list(dict.fromkeys(internals))}, **({'monotonic': True} if mono else {}))
+            dated, Dp, Dbp = H.reference_nonlinear(blk, ss, sh, T)
+            n += 1
+            prevA = {'a': ss['A'], 'b': ss.toplevel.get('B')}
+            for t in range(T):
+                dt = dated[t]
+                Dt = imp.internals[blk.name]['D'][t] + d['D']
+                Dbt = imp.internals[blk.name]['Dbeg'][t] + d['Dbeg']
+                car = {'a': np.vdot(Dbt, np.broadcast_to(dt['a_grid'] if name != 'twoasset' else dt['a_grid'][None, None, :], Dbt.shape))}
+                if name == 'twoasset':
+                    car['b'] = np.vdot(Dbt, np.broadcast_to(dt['b_grid'][None, :, None], Dbt.shape))
+                v = {k: ss[k] + imp[k][t] for k in imp.toplevel if k in ss.toplevel and np.isscalar(ss[k])}
+                for k in (rname, 'ra', 'rb', 'r'):
+                    if k in calib:
+                        v[k] = calib[k] + (sh[k][t] if k in sh else 0.0)
+                v['Y_inc'] = income(name, dt, Dt)
+                res = agg_residual(name, v, car)
+                if abs(res) > 1e-8:
+                    C.push(out, dict(what='aggregate budget identity fails along a nonlinear impulse', input=dict(inp, date=t), observed=float(res), signature=dict(op='path', block=name)))
+                    break
+                if abs(car['a'] - prevA['a']) > 1e-7:
+                    C.push(out, dict(what='assets carried into date t differ from aggregate assets chosen at date t-1', input=dict(inp, date=t), observed=float(car['a'] - prevA['a']), signature=dict(op='path-carried', block=name)))
+                    break
+                prevA = {'a': v['A'], 'b': v.get('B')}
         # Jacobian columns: d(C + A (+B + CHI)) - d(income) - d[(1+r) A(-1)] = 0
         if fi >= 3:
             continue            # on the deliberately coarse grids the difference quotients are dominated by kinks: levels only
